@@ -9,6 +9,9 @@ import (
 	"strings"
 )
 
+// tempFileSuffix is appended to the file name of a key while its value is written.
+const tempFileSuffix = ".tmp"
+
 type fileStorage struct {
 	dirPath string
 }
@@ -34,16 +37,30 @@ func NewFileStorage(dir string) (Storage, error) {
 }
 
 // Set sets the value for a specific key.
+// The value is written to a temporary file in the same directory which
+// then replaces the file of the key. A previous (longer) value is
+// replaced as a whole, and a crash while writing never leaves a
+// partially written value behind.
 func (f *fileStorage) Set(key string, value []byte) error {
-	file, err := f.fileForWrite(key)
+	path := f.filePathToFile(key)
+	tmp := path + tempFileSuffix
 
+	file, err := os.OpenFile(tmp, os.O_WRONLY|os.O_CREATE|os.O_TRUNC, 0666)
 	if err != nil {
 		return err
 	}
 
-	defer file.Close()
-
 	_, err = file.Write(value)
+	if cerr := file.Close(); err == nil {
+		err = cerr
+	}
+	if err == nil {
+		err = os.Rename(tmp, path)
+	}
+	if err != nil {
+		os.Remove(tmp)
+	}
+
 	return err
 }
 
@@ -98,10 +115,6 @@ func (f *fileStorage) dir() string {
 func (f *fileStorage) filePathToFile(file string) string {
 	fname := removeInvalidFileNameCharacters(file)
 	return filepath.Join(f.dir(), fname)
-}
-
-func (f *fileStorage) fileForWrite(key string) (*os.File, error) {
-	return os.OpenFile(f.filePathToFile(key), os.O_WRONLY|os.O_CREATE, 0666)
 }
 
 func (f *fileStorage) fileForRead(key string) (*os.File, error) {
